@@ -1310,9 +1310,19 @@ class SchemaValidator:
                         return sub_thread_context.variables[var_name]
 
                     if sub_thread_context.sub_thread_group_ids:
-                        return check_nested_scopes_recursive(sub_thread_group_ref)
+                        nested_variable = check_nested_scopes_recursive(
+                            sub_thread_group_ref
+                        )
+                        if nested_variable is not None:
+                            return nested_variable
 
-            return check_nested_scopes_recursive(thread_group_ref)
+                return None
+
+            # only the thread groups nested inside the innermost thread group of the scope
+            # can see its variables (sibling thread groups cannot)
+            return check_nested_scopes_recursive(
+                utils.as_namespaced_ref(schema_id, thread_path[0], "thread_group")
+            )
 
         return None
 
